@@ -39,7 +39,7 @@ pub const ACTIONS: [&str; 10] = [
     "execute_on_shared_handle",
     "dump_own_context",
 ];
-pub const POSITIONS: [&str; 7] = [
+pub const POSITIONS: [&str; 8] = [
     "root",
     "nested_operand",
     "conditional_then",
@@ -50,6 +50,9 @@ pub const POSITIONS: [&str; 7] = [
     // `t = 10 ; t += <handler> ; t` where the handler rewrites t through the handle / a nested
     // evaluation: the compound form reads its target BEFORE the right-hand side runs
     "rhs_of_compound_assignment_whose_target_it_rewrites",
+    // `[<handler>, name]` where the handler writes `name` into the evaluating context: the later
+    // element must see the write (elements are evaluated one after the other, not from a snapshot)
+    "list_element_before_the_name_it_writes",
 ];
 
 /// kinds that are context functions (any handler kind may lock / evaluate on the evaluating
@@ -70,6 +73,9 @@ pub fn matrix() -> Vec<(usize, usize, usize)> {
                 // position 6: only for the two actions that write the evaluating context, and for
                 // handler kinds that yield a value
                 if p == 6 && (!(a == 7 || a == 8) || k >= 6) {
+                    continue;
+                }
+                if p == 7 && (!(a == 7 || a == 8) || k >= 6) {
                     continue;
                 }
                 v.push((k, a, p));
@@ -188,6 +194,7 @@ fn at_position(p: usize, node: Expr) -> Expr {
         1 => Expr::List(vec![lit_i(1), node]),
         2 => tern(lit_b(true), node, lit_i(0)),
         3 => tern(lit_b(false), lit_i(0), node),
+        7 => Expr::List(vec![node, rf("hw"), rf("hz"), rf("y")]),
         // nf(<node>): the callee is registered (4) or replaced (5) while its argument is evaluated
         _ => call("nf", vec![node]),
     }
@@ -397,7 +404,7 @@ impl Prop for C14 {
             rule: "exhaustive part: every existing cell of handler kind {global function, prefix, infix, postfix, context function by call, context function by \
                    bare name, user-registered SETTER operator, context function as the target of a compound assignment} x re-entrant action {parse_expression, execute on a new context, register_function/prefix/infix/postfix, and for context \
                    functions: lock the evaluating context's handle and read / write it / evaluate on a Context sharing it / dump it} x program position {root, \
-                   nested operand, then-branch, else-branch, and for register_function: as an argument of the very function it registers / replaces} = 344 cases, all run on every invocation; sampled part: seeded chains of 2..4 re-entrant \
+                   nested operand, then-branch, else-branch, and for register_function: as an argument of the very function it registers / replaces} = 356 cases, all run on every invocation; sampled part: seeded chains of 2..4 re-entrant \
                    handlers each evaluating a program that invokes the next, in a third of them with a bystander thread that registers and evaluates concurrently \
                    (seeded schedules). Fresh simulated process per case. evaluations = simulated \
                    executions; distinct_nontrivial = distinct cases in which at least one re-entrant action was actually performed inside a handler",
